@@ -1527,6 +1527,44 @@ def canonical_func(fi):
                         n.target = ast.copy_location(ast.Name(id=elem, ctx=ast.Store()), n.target)
                         n.iter = xs
                         return n
+            # `for i, x in enumerate(xs, start=k)` is `for i0, x in enumerate(xs)` with i = i0 + k
+            if isinstance(it, ast.Call) and isinstance(it.func, ast.Name) and it.func.id == 'enumerate' and isinstance(n.target, ast.Tuple) \
+                    and len(n.target.elts) == 2 and isinstance(n.target.elts[0], ast.Name) and (
+                        (len(it.args) == 2 and not it.keywords) or (len(it.args) == 1 and len(it.keywords) == 1 and it.keywords[0].arg == 'start')):
+                start = it.args[1] if len(it.args) == 2 else it.keywords[0].value
+                i_name = n.target.elts[0].id
+                stores_i = any(isinstance(x, ast.Name) and x.id == i_name and isinstance(x.ctx, ast.Store) for st in n.body for x in ast.walk(st))
+                if isinstance(start, ast.Constant) and isinstance(start.value, int) and not isinstance(start.value, bool) and not stores_i:
+                    k_ = start.value
+
+                    class Sh(ast.NodeTransformer):
+                        def visit_Name(self, x):
+                            if x.id == i_name and isinstance(x.ctx, ast.Load):
+                                return ast.copy_location(ast.BinOp(left=ast.Name(id=i_name, ctx=ast.Load()), op=ast.Add(), right=ast.Constant(value=k_)), x)
+                            return x
+                    if k_ != 0:
+                        n.body = [Sh().visit(st) for st in n.body]
+                    n.iter = ast.copy_location(ast.Call(func=it.func, args=[it.args[0]], keywords=[]), it)
+                    ast.fix_missing_locations(n)
+                    it = n.iter
+            # `for k, v in d.items()` over a named mapping that the body leaves alone is `for k in d: v = d[k]`
+            if isinstance(it, ast.Call) and isinstance(it.func, ast.Attribute) and it.func.attr == 'items' and not it.args and not it.keywords \
+                    and isinstance(it.func.value, (ast.Name, ast.Attribute)) and dotted(it.func.value) and isinstance(n.target, ast.Tuple) \
+                    and len(n.target.elts) == 2 and all(isinstance(t, ast.Name) for t in n.target.elts) and not n.orelse:
+                d_ = it.func.value
+                k_n, v_n = n.target.elts[0].id, n.target.elts[1].id
+                body_stores = {x.id for st in n.body for x in ast.walk(st) if isinstance(x, ast.Name) and isinstance(x.ctx, ast.Store)}
+                key_ = ast.dump(d_)
+                touched = any((isinstance(x, ast.Subscript) and isinstance(x.ctx, (ast.Store, ast.Del)) and ast.dump(x.value) == key_) or (
+                    isinstance(x, ast.Call) and isinstance(x.func, ast.Attribute) and ast.dump(x.func.value) == key_ and x.func.attr in (
+                        'pop', 'update', 'clear', 'setdefault', 'popitem', '__setitem__')) for st in n.body for x in ast.walk(st))
+                if k_n != v_n and not (names_in(d_) & (body_stores | {k_n, v_n})) and not ({k_n, v_n} & body_stores) and not touched:
+                    bind = ast.copy_location(ast.Assign(targets=[ast.Name(id=v_n, ctx=ast.Store())], value=ast.Subscript(
+                        value=copy_ast(d_), slice=ast.Name(id=k_n, ctx=ast.Load()), ctx=ast.Load())), n)
+                    n.target = ast.copy_location(ast.Name(id=k_n, ctx=ast.Store()), n.target)
+                    n.iter = copy_ast(d_)
+                    n.body = [bind] + n.body
+                    return ast.fix_missing_locations(n)
             # walking named sequences in step: `for a, b in zip(A, B)` is `for i in range(len(A)): a = A[i]; b = B[i]`
             # (assumption, documented: the sequences zipped have one length - where they do not, the index form raises)
             if isinstance(it, ast.Call) and isinstance(it.func, ast.Name) and it.func.id == 'zip' and 2 <= len(it.args) <= 4 and not it.keywords \
